@@ -140,6 +140,10 @@ func runC13(c *Ctx) {
 		c.obUnreach("bdatStatus created", st, aNoRcpt)
 	}
 
+	if f := c.A.Func("(*Conn).reset"); f != nil {
+		R.Ob("(*Conn).reset/drops the BDAT collector", c.P.Pos(f.Pos()), s.Must(f)["st:Conn.bdatStatus=nil"], "reset() does not certainly clear Conn.bdatStatus: the next LMTP BDAT message reuses the previous message's collector (statuses attributed to the wrong recipients)")
+	}
+
 	R.Rule("R-status-fill", "E2", "a fill event precedes every completion signal of a delivery (normal and panic exits); the BDAT LAST branch fills before emitting", 5)
 	if f := c.A.Func("(*Conn).handleDataLMTP"); f != nil {
 		for _, g := range withClosures(f) {
